@@ -330,7 +330,11 @@ func runC06(r *report.Run) {
 	var nd int64
 	par.For(len(dist), func(_, i int) {
 		if sig, what := c06DistRun(dist[i]); sig != "" {
-			r.Violation(sig, what, dist[i])
+			d := dist[i].Distance
+			if d < 0 {
+				d = -d
+			}
+			r.ViolationSized(sig, what, dist[i], d+dist[i].Refs+len(dist[i].Extra))
 		}
 		atomic.AddInt64(&nd, 1)
 	})
